@@ -29,8 +29,11 @@ per-schedule term is obtained by running the REAL LinearEstimator on
 Each per-schedule term is exactly proportional to 1/n_j (Cov f_j = Sigma_j/n_j),
 which gives the closed-form scaling used for sample sizes beyond enumeration.
 """
+import contextlib
 import math
 import os
+import pickle
+import time
 import types
 from collections import OrderedDict
 
@@ -311,8 +314,9 @@ class Forward:
         exp = qt.experiment
         self.tomo = type(qt).__name__
         self.schedules = [list(map(tuple, s)) for s in exp.schedules]
-        self.states = [None if s is None else np.asarray(s.vec, dtype=np.float64) for s in exp.states]
-        self.povms = [None if p is None else [np.asarray(v, dtype=np.float64) for v in p.vecs] for p in exp.povms]
+        # copies: the reference must not follow a later in-place change of a tester's arrays
+        self.states = [None if s is None else np.array(s.vec, dtype=np.float64) for s in exp.states]
+        self.povms = [None if p is None else [np.array(v, dtype=np.float64) for v in p.vecs] for p in exp.povms]
         tester = next(x for x in list(exp.states) + list(exp.povms) if x is not None)
         B = gen.basis_of(tester.composite_system)
         F = np.array([b.reshape(-1) for b in B])
@@ -374,8 +378,10 @@ class Model:
         self.tag = f"{self.cls}:para_eq={'T' if self.flag else 'F'}"
         self.K = int(qt.num_schedules)
         self.sizes = [int(qt.num_outcomes(j)) for j in range(self.K)]
-        self.A = np.asarray(qt.calc_matA(), dtype=np.float64)
-        self.b = np.asarray(qt.calc_vecB(), dtype=np.float64)
+        # copies taken when the tomography is first seen (np.asarray would alias an array that the library caches and
+        # later modifies, and the reference would follow the fault)
+        self.A = np.array(qt.calc_matA(), dtype=np.float64)
+        self.b = np.array(qt.calc_vecB(), dtype=np.float64)
         self.off = np.concatenate([[0], np.cumsum(self.sizes)]).astype(int)
         self.li = lin_info(self.A) if self.A.shape[0] == self.off[-1] else {"ic": False, "kappa": float("inf"), "smax": 0.0}
         self.fwd = Forward(qt)
@@ -392,6 +398,7 @@ class Judge:
         self.est = est
         self.models = OrderedDict()
         self.truths = OrderedDict()
+        self.pins = {}
         self.worst = {}
         self.kappas = []
         self.condF = []
@@ -412,12 +419,19 @@ class Judge:
         if c is None or c.qt is not qt:
             c = Model(qt)
             self.models[id(qt)] = c
-            while len(self.models) > 4:
+            while len(self.models) > 8:
                 self.models.popitem(last=False)
         return c
 
     def clear_case(self):
         self.truths.clear()
+        self.pins.clear()
+
+    def pin(self, qope):
+        """remember the parameters a true object has NOW (copies).  Later calls with this very object are judged against
+        these: the statement is about the object the caller built, so if anything modifies it behind the caller's back
+        the formulas' answers stop being the expectations for it (without the pin the reference would silently follow)"""
+        self.pins[id(qope)] = (qope, [np.array(a, dtype=np.float64) for a in raw_list(qope)])
 
     def truth(self, qt, qope):
         """per (tomography, true object): reference distributions, centre of the linear estimate, and a table of
@@ -425,7 +439,8 @@ class Judge:
         M = self.model(qt)
         if M.t is None or gen.type_of(qope) != M.t:
             return None
-        raws = raw_list(qope)
+        pinned = self.pins.get(id(qope))
+        raws = pinned[1] if (pinned is not None and pinned[0] is qope) else raw_list(qope)
         key = (id(qt), b"".join(np.ascontiguousarray(a).tobytes() for a in raws))
         T = self.truths.get(key)
         if T is not None and T["qt"] is qt:
@@ -438,7 +453,7 @@ class Judge:
              "v_true": ref_var(M.t, raws, M.flag), "o_true": np.hstack([np.ravel(a) for a in raws]), "terms": {},
              "emp": {}, "centre": None}
         self.truths[key] = T
-        while len(self.truths) > 6:
+        while len(self.truths) > 16:
             self.truths.popitem(last=False)
         return T
 
@@ -562,6 +577,22 @@ def install_tomography_hooks(hs, J):
             return kw[name]
         return a[pos] if len(a) > pos else default
 
+    def snap_args(qt, *a, **kw):
+        """the arguments as they are when the call is made (lists / arrays copied): the formulas are judged for what the
+        caller asked, also when the callee re-orders or rescales a list in place before using it"""
+        def cp(x):
+            if isinstance(x, np.ndarray):
+                return x.copy()
+            return list(x) if isinstance(x, list) else x
+        return tuple(cp(x) for x in a), {k: cp(v) for k, v in kw.items()}
+
+    def hook(cls, name, post):
+        def post_on_call_time_args(result, snap, qt, *a, **kw):
+            if snap is not None:
+                a, kw = snap
+            return post(result, None, qt, *a, **kw)
+        hs.method(cls, name, post=post_on_call_time_args, pre=snap_args)
+
     # ---- covariance of one empirical distribution -----------------------------
     def post_cov_single(result, snap, qt, *a, **kw):
         qope, j, n = arg(a, kw, 0, "qope"), arg(a, kw, 1, "schedule_index"), arg(a, kw, 2, "data_num")
@@ -576,7 +607,7 @@ def install_tomography_hooks(hs, J):
               key=f"calc_covariance_mat_single:{T['M'].tag}:differs-from-enumeration",
               info={"n": int(n), "route": "enumerated" if enum_n(n, len(T['ps'][j])) == n else "scaled", "schedule": "first" if j == 0 else "later"})
 
-    hs.method(SQ, "calc_covariance_mat_single", post=post_cov_single)
+    hook(SQ, "calc_covariance_mat_single", post_cov_single)
 
     def post_cov_total(result, snap, qt, *a, **kw):
         qope, ns = arg(a, kw, 0, "qope"), arg(a, kw, 1, "data_num_list")
@@ -601,7 +632,7 @@ def install_tomography_hooks(hs, J):
         J.num("covariance_total=enumeration", err, 1e-11, 1e-8,
               key=f"calc_covariance_mat_total:{M.tag}:differs-from-enumeration", info={"ns": ns_[:12]})
 
-    hs.method(SQ, "calc_covariance_mat_total", post=post_cov_total)
+    hook(SQ, "calc_covariance_mat_total", post_cov_total)
 
     # ---- linear estimate -----------------------------------------------------
     def lin_ready(qt, qope, ns, oracle):
@@ -630,7 +661,7 @@ def install_tomography_hooks(hs, J):
         J.num("covariance_linear=enumeration", rel(result, L["cov"]), tp, tf,
               key=f"calc_covariance_linear_mat_total:{T['M'].tag}:differs-from-enumeration", info={"ns": ns_[:12], "kappa": T["M"].li["kappa"]})
 
-    hs.method(SQ, "calc_covariance_linear_mat_total", post=post_cov_linear)
+    hook(SQ, "calc_covariance_linear_mat_total", post_cov_linear)
 
     def post_mse_linear(result, snap, qt, *a, **kw):
         mode = arg(a, kw, 2, "mode", "qoperation")
@@ -655,7 +686,7 @@ def install_tomography_hooks(hs, J):
         J.num(oracle, err, tp, tf, key=f"calc_mse_linear_analytical:{T['M'].tag}:mode={mode}:{what}",
               info={"ns": ns_[:12], "got": val, "enumeration": want, "enumeration_var_space": L["mse_var"], "kappa": T["M"].li["kappa"]})
 
-    hs.method(SQ, "calc_mse_linear_analytical", post=post_mse_linear)
+    hook(SQ, "calc_mse_linear_analytical", post_mse_linear)
 
     def post_mse_empi(result, snap, qt, *a, **kw):
         qope, ns = arg(a, kw, 0, "qope"), arg(a, kw, 1, "data_num_list")
@@ -672,7 +703,7 @@ def install_tomography_hooks(hs, J):
         J.num("mse_empi_dists=enumeration", abs(val - want) / max(abs(want), 1e-300), 1e-11, 1e-8,
               key=f"calc_mse_empi_dists_analytical:{T['M'].tag}:differs-from-enumeration", info={"ns": ns_[:12], "got": val, "enumeration": want})
 
-    hs.method(SQ, "calc_mse_empi_dists_analytical", post=post_mse_empi)
+    hook(SQ, "calc_mse_empi_dists_analytical", post_mse_empi)
 
     # ---- Fisher matrix / Cramer-Rao bound ---------------------------------------
     def fisher_inputs(qt, var):
@@ -711,7 +742,7 @@ def install_tomography_hooks(hs, J):
             J.num("fisher:boundary-rule", rel(result, want), 1e-6, 1e-4,
                   key=f"calc_fisher_matrix:{M.tag}:p=0:differs-from-replace_prob_dist-rule", info={"arg": kind})
 
-    hs.method(SQ, "calc_fisher_matrix", post=post_fisher)
+    hook(SQ, "calc_fisher_matrix", post_fisher)
 
     def post_fisher_total(result, snap, qt, *a, **kw):
         var, weights = arg(a, kw, 0, "var"), arg(a, kw, 1, "weights")
@@ -733,7 +764,7 @@ def install_tomography_hooks(hs, J):
             J.num("fisher_total:boundary-rule", rel(result, want), 1e-6, 1e-4,
                   key=f"calc_fisher_matrix_total:{M.tag}:p=0:differs-from-replace_prob_dist-rule", info={"arg": kind})
 
-    hs.method(SQ, "calc_fisher_matrix_total", post=post_fisher_total)
+    hook(SQ, "calc_fisher_matrix_total", post_fisher_total)
 
     def crb_truth(qt, var, list_N):
         got = fisher_inputs(qt, var)
@@ -800,8 +831,8 @@ def install_tomography_hooks(hs, J):
                       info={"arg": R["kind"], "cond_F": R["cond"], "got": val, "want": want, "N": N, "ns": R["ns"][:12]})
         return post
 
-    hs.method(SQ, "calc_cramer_rao_bound", post=post_crb(False))
-    hs.method(StandardPovmt, "calc_cramer_rao_bound", post=post_crb(True))
+    hook(SQ, "calc_cramer_rao_bound", post_crb(False))
+    hook(StandardPovmt, "calc_cramer_rao_bound", post_crb(True))
     return crb_truth
 
 
@@ -1445,6 +1476,358 @@ def drive_helpers(ctx, rng, tag):
     call("calc_fisher_matrix_total", mu.calc_fisher_matrix_total, ps, gs2, ws, eps=eps)
 
 
+# =========================================================================
+# history / combination steps
+# =========================================================================
+
+HISTORY_STEPS = ["second-call", "second-true-object", "transient-true-object", "twin-tomography", "via-pickle",
+                 "helpers:re-query", "returned-arrays-stable"]
+PROVENANCES = ["ctor-options", "via-copy", "via-generate_from_var", "via-convert_var_to_qoperation", "via-pickle"]
+
+
+class PhaseKeys:
+    """Key suffixes for history steps.  While a step is active (`with ph.step(name)`) every violation recorded through
+    ctx.num / ctx.truth / ctx.violation - by a hook or by the driver - whose key was NOT already produced by the ordinary
+    (fresh-object, first-call) part of the same case gets the suffix ':<name>': such a key can only come from the
+    history.  Within a case a key keeps the suffix of the step that showed it first."""
+
+    def __init__(self, ctx):
+        self.ctx, self.cur, self.fresh, self.first = ctx, None, set(), {}
+        self.cpu = {}  # CPU seconds per step: cost information for the evidence, never used in a verdict
+        self._orig = ctx.violation
+        ctx.violation = self._violation  # instance attribute: ctx.num / ctx.truth call self.violation
+
+    def _violation(self, key, info=None):
+        if self.cur is None:
+            self.fresh.add(key)
+        elif key not in self.fresh:
+            if isinstance(info, dict):
+                info = dict(info, history_step=self.cur)
+            key = f"{key}:{self.first.setdefault(key, self.cur)}"
+        self._orig(key, info)
+
+    def new_case(self):
+        self.cur, self.fresh, self.first = None, set(), {}
+
+    @contextlib.contextmanager
+    def step(self, name):
+        prev, self.cur = self.cur, name
+        base = name.split("[")[0].split("+")[0]
+        self.ctx.count("history-step:" + base)
+        t0 = time.process_time()
+        try:
+            yield
+        finally:
+            self.cur = prev
+            self.cpu[base] = self.cpu.get(base, 0.0) + time.process_time() - t0
+
+    def restore(self):
+        self.ctx.__dict__.pop("violation", None)
+
+
+class Keeper:
+    """array results handed out by the library, with their bytes at the time they were returned.  A matrix that was
+    the exact expectation when it was returned and is something else after later library calls (a result aliasing a
+    cache or a re-used buffer) is no longer what the statement says it is; nothing is recomputed here, the array is
+    compared with its own earlier bytes."""
+
+    def __init__(self):
+        self.items = []
+
+    def clear(self):
+        self.items = []
+
+    def add(self, label, tag, val):
+        if isinstance(val, np.ndarray) and val.size and len(self.items) < 400:
+            self.items.append((label, tag, val, val.tobytes()))
+
+    def judge(self, ctx):
+        for label, tag, val, b in self.items:
+            ctx.truth("returned-array-unchanged-by-later-calls", val.tobytes() == b,
+                      key=f"{label}:{tag}:returned-array-changed-by-later-calls")
+
+
+def hist_sizes(rh, sizes):
+    """sample sizes for the history steps: every schedule is enumerated at n0 = 1 or 2 shots (directly, or through the
+    1/n scaling from a size beyond the enumeration range), so a NEW (tomography, true object) pair costs K small
+    enumerations; at least two different values"""
+    ns = []
+    for m in sizes:
+        nm = n_enum_max(m)
+        n0 = 2 if (nm >= 2 and rh.random() < 0.3) else 1
+        n = n0 if rh.random() < 0.5 else nm * int(rh.integers(2, 40)) + (n0 - 1)
+        ns.append(int(n) if enum_n(n, m) == n0 else n0)
+    if len(ns) >= 2 and len(set(ns)) == 1:
+        ns[0] = n_enum_max(sizes[0]) * 41
+    return ns
+
+
+TRUE_OPTIONS = [
+    {"is_estimation_object": True},
+    {"on_algo_eq_constraint": False, "on_algo_ineq_constraint": False},
+    {"mode_proj_order": "ineq_eq"},
+    {"eps_proj_physical": 1e-3},
+    {"eps_truncate_imaginary_part": 1e-9},
+]
+
+
+def second_true_object(ctx, rh, tomo, c_sys, d, m_true, flag, qt, true, prov):
+    """a true object of another kind that is NOT a plain constructor call with default options"""
+    kind = str(rh.choice(["interior", "rankdef", "sharp"]))
+    ops2 = draw_true(tomo, d, m_true, rh, kind)
+    kw = {}
+    for o in TRUE_OPTIONS:
+        if rh.random() < 0.4:
+            kw.update(o)
+    ok, o2 = ctx.attempt(make_true, tomo, c_sys, ops2, on_para_eq_constraint=flag, **kw)
+    if not ok:  # a constructor that refuses an option is not this property's business
+        ctx.count(f"recorded-not-judged:true-object-ctor-refuses-options:{type(o2).__name__}")
+        o2 = make_true(tomo, c_sys, ops2, on_para_eq_constraint=flag)
+    if prov == "ctor-options":
+        return o2
+    if prov == "via-copy":
+        fn = lambda: o2.copy()  # noqa: E731
+    elif prov == "via-generate_from_var":
+        fn = lambda: true.generate_from_var(np.array(o2.to_var()))  # noqa: E731
+    elif prov == "via-convert_var_to_qoperation":
+        fn = lambda: qt.convert_var_to_qoperation(np.array(o2.to_var()))  # noqa: E731
+    else:
+        fn = lambda: pickle.loads(pickle.dumps(o2))  # noqa: E731
+    ok, o3 = ctx.attempt(fn)
+    if not ok:
+        ctx.count(f"recorded-not-judged:true-object-{prov}-raises:{type(o3).__name__}")
+        return o2
+    return o3
+
+
+def build_twin(ctx, rh, tomo, qt, states, povms, m_true, flag):
+    """second tomography of the same class, flag and sizes from the SAME tester objects, schedules given explicitly in
+    reversed order (rows of A permuted: same rank, same condition number), non-default constructor options"""
+    from quara.protocol.qtomography.standard.standard_povmt import StandardPovmt
+    from quara.protocol.qtomography.standard.standard_qmpt import StandardQmpt
+    from quara.protocol.qtomography.standard.standard_qpt import StandardQpt
+    from quara.protocol.qtomography.standard.standard_qst import StandardQst
+
+    kw = {"on_para_eq_constraint": flag, "schedules": [list(s) for s in qt.experiment.schedules][::-1]}
+    opts = []
+    for name, val in (("is_estimation_object", True), ("eps_proj_physical", 1e-3), ("eps_truncate_imaginary_part", 1e-9),
+                      ("seed_data", int(rh.integers(0, 2**31)))):
+        if rh.random() < 0.5:
+            kw[name] = val
+            opts.append(name)
+    if tomo == "qst":
+        fn = lambda: StandardQst(povms, **kw)  # noqa: E731
+    elif tomo == "povmt":
+        fn = lambda: StandardPovmt(states, m_true, **kw)  # noqa: E731
+    elif tomo == "qpt":
+        fn = lambda: StandardQpt(states, povms, **kw)  # noqa: E731
+    else:
+        fn = lambda: StandardQmpt(states, povms, m_true, **kw)  # noqa: E731
+    ok, q2 = ctx.attempt(fn)
+    return (q2 if ok else None), opts, (None if ok else q2)
+
+
+def ask_all(call, tag, qt, obj, ns, N, ws, js, var_arr=None, level="full"):
+    """formulas for (qt, obj, ns); `js` = schedules for the per-schedule formulas.
+    full : every public formula once;
+    lite : object-space MSE of the linear estimate (its nested calls - variable-space MSE, covariance of the linear
+           estimate, total and per-schedule covariance of every schedule - are judged by their own hooks), MSE of the
+           empirical distributions, Cramer-Rao bound (nested: total and per-schedule Fisher matrices), one direct
+           per-schedule covariance and Fisher matrix;
+    micro: no linear-estimate formula (nothing has to be enumerated through the estimator for a new pair)"""
+    for j in (js if level == "full" else js[:1]):
+        call("calc_covariance_mat_single", tag, qt.calc_covariance_mat_single, obj, j, ns[j])
+        call("calc_fisher_matrix", tag, qt.calc_fisher_matrix, j, obj)
+    if level == "full":
+        call("calc_covariance_mat_total", tag, qt.calc_covariance_mat_total, obj, ns)
+        call("calc_covariance_linear_mat_total", tag, qt.calc_covariance_linear_mat_total, obj, ns)
+        call("calc_mse_linear_analytical", tag, qt.calc_mse_linear_analytical, obj, ns, mode="var")
+        call("calc_fisher_matrix_total", tag, qt.calc_fisher_matrix_total, obj, ws)
+    if level != "micro":
+        call("calc_mse_linear_analytical", tag, qt.calc_mse_linear_analytical, obj, ns, mode="qoperation")
+        call("calc_mse_empi_dists_analytical", tag, qt.calc_mse_empi_dists_analytical, obj, ns)
+    call("calc_cramer_rao_bound", tag, qt.calc_cramer_rao_bound, obj, N, ns)
+    if var_arr is not None:
+        call("calc_fisher_matrix", tag, qt.calc_fisher_matrix, js[0], var_arr)
+        if level != "micro":
+            call("calc_cramer_rao_bound", tag, qt.calc_cramer_rao_bound, var_arr, N, ns)
+
+
+def drive_helpers_history(ctx, rh, keep):
+    """helper functions asked again: same input with another option / size, ANOTHER input of the same shape in between,
+    then the first input again (every call is judged by the helper's own hook; array results are kept for the
+    returned-arrays-stable step)"""
+    import quara.data_analysis.data_analysis as da
+    import quara.utils.matrix_util as mu
+
+    def call(label, fn, *a, **kw):
+        ok, val = ctx.attempt(fn, *a, **kw)
+        if not ok:
+            ctx.count(f"helper-raised:{label}:{type(val).__name__}")
+            return None
+        keep.add("matrix_util." + label if fn.__module__.endswith("matrix_util") else "data_analysis." + label, "helper", val)
+        return val
+
+    m = int(rh.integers(2, 5))
+    q1, q2 = rh.dirichlet(np.ones(m)), rh.dirichlet(np.ones(m))
+    n1, n2 = int(rh.integers(1, 9)), int(rh.integers(9, 5000))
+    for q, n in ((q1, n1), (q2, n1), (q1, n2), (q1, n1), (q2, n2)):
+        call("calc_covariance_mat", mu.calc_covariance_mat, q, n)
+        call("calc_covariance_matrix_of_prob_dist", da.calc_covariance_matrix_of_prob_dist, q, n)
+    for qs, n in (([q1, q2], n1), ([q2, q1], n1), ([q1, q2], n2), ([q1, q2], n1)):
+        call("calc_covariance_mat_total", mu.calc_covariance_mat_total, [(n, q) for q in qs])
+        call("calc_covariance_matrix_of_prob_dists", da.calc_covariance_matrix_of_prob_dists, qs, n)
+    sizes = [int(x) for x in rh.integers(1, 4, size=int(rh.integers(1, 4)))]
+    b1 = [rh.standard_normal((s_, s_)) for s_ in sizes]
+    b2 = [rh.standard_normal((s_, s_)) for s_ in sizes]
+    for b in (b1, b2, b1):
+        call("calc_direct_sum", mu.calc_direct_sum, b)
+    c = int(rh.integers(1, 5))
+    r = c + int(rh.integers(0, 4))
+    A1, A2 = rh.standard_normal((r, c)), rh.standard_normal((r, c))
+    V1, V2 = rh.standard_normal((c, c)), rh.standard_normal((c, c))
+    for A, V in ((A1, V1), (A2, V1), (A1, V2), (A1, V1)):
+        call("calc_conjugate", mu.calc_conjugate, A, V)
+    if max(np.linalg.cond(A1), np.linalg.cond(A2)) < 100:
+        for A in (A1, A2, A1):
+            call("calc_left_inv", mu.calc_left_inv, A)
+    k = int(rh.integers(1, 4))
+    xs = [rh.standard_normal(3) for _ in range(k)]
+    ys = [rh.standard_normal(3) for _ in range(k)]
+    zs = [rh.standard_normal(3) for _ in range(k)]
+    for a, b in ((xs, ys), (xs, zs), (ys, xs), (xs, ys)):
+        call("calc_se", mu.calc_se, a, b)
+    for a, b in (([xs, ys, zs], [zs, zs, zs]), ([ys, xs, zs], [xs, xs, xs]), ([xs, ys, zs], [zs, zs, zs])):
+        call("calc_mse_prob_dists", mu.calc_mse_prob_dists, a, b)
+    nv = int(rh.integers(1, 5))
+    p1, p2 = rh.dirichlet(np.ones(m)), rh.dirichlet(np.ones(m))
+    if rh.random() < 0.5:
+        p1[int(rh.integers(0, m))] = 0.0
+        p1 = p1 / p1.sum()
+    G1 = [rh.standard_normal(nv) for _ in range(m)]
+    G2 = [rh.standard_normal(nv) for _ in range(m)]
+    eps = float(10 ** rh.uniform(-10, -4))
+    for p_, G, e in ((p1, G1, None), (p2, G1, None), (p1, G1, eps), (p1, G2, None), (p1, G1, None)):
+        if e is None:
+            call("replace_prob_dist", mu.replace_prob_dist, p_)
+        else:
+            call("replace_prob_dist", mu.replace_prob_dist, p_, e)
+        call("calc_fisher_matrix", mu.calc_fisher_matrix, p_, G, eps=e)
+    ws = list(rh.uniform(0.1, 3.0, size=2))
+    for ps, Gs, w, e in (([p1, p2], [G1, G2], ws, None), ([p2, p1], [G1, G2], ws, None), ([p1, p2], [G1, G2], ws[::-1], eps),
+                         ([p1, p2], [G1, G2], ws, None)):
+        call("calc_fisher_matrix_total", mu.calc_fisher_matrix_total, ps, Gs, w, eps=e)
+
+
+def run_history(ctx, ph, J, hs, keep, call, S):
+    """history / combination steps of one case (own random stream, so the ordinary workload is what it was)"""
+    import quara.data_analysis.data_analysis as da
+    import quara.loss_function.mean_squared_error as mse_mod
+
+    rh = ctx.rng(1)
+    tomo, c_sys, d, flag = S["tomo"], S["c_sys"], S["d"], S["flag"]
+    qt, true, tag, K, sizes, lists = S["qt"], S["true"], S["tag"], S["K"], S["sizes"], S["lists"]
+    m_true, i = S["m_true"], S["i"]
+    heavy = tomo in ("qpt", "qmpt")
+    even = i % 2 == 0  # every case: second call + helpers + stability; even cases: second true object + twin tomography;
+    # odd cases: transient objects + pickle round trip + the 3-sigma checkers again
+    all_js = list(range(K))[::-1]
+    some_js = sorted({int(x) for x in rh.integers(0, K, size=3)})
+    hns = hist_sizes(rh, sizes)
+    hns0 = tuple(hns)
+    N = int(rh.choice([1, hns[0], max(hns), 1000]))
+    ws = [float(x) for x in rh.uniform(0.1, 3.0, size=K)]
+    var_arr = S["var_arr"]
+
+    # ---- (a) the same tomography and the same true object asked again, after the estimator runs, the sampled-data
+    # helpers and the 3-sigma checkers have used them; other order, known and new sample-size lists
+    with ph.step("second-call"):
+        call("calc_cramer_rao_bound", tag, qt.calc_cramer_rao_bound, true, N, lists["mixed"])
+        ask_all(call, tag, qt, true, lists["mixed"], N, ws, all_js if i % 4 == 0 else some_js[::-1], var_arr=var_arr,
+                level="full" if i % 4 == 0 else "lite")
+        call("calc_mse_linear_analytical", tag, qt.calc_mse_linear_analytical, true, lists["large"], mode="qoperation")
+        call("calc_cramer_rao_bound", tag, qt.calc_cramer_rao_bound, var_arr, N, lists["large"])
+        ask_all(call, tag, qt, true, hns, N, ws, some_js, var_arr=var_arr, level="lite")
+        if S.get("sim") is not None and not even:
+            setting, sim, results = S["sim"]
+            call("compare_to_analytical", tag, mse_mod.compare_to_analytical, setting, results, qt, show_detail=False)
+            call("check_mse_of_empirical_distributions", tag, mse_mod.check_mse_of_empirical_distributions, sim, show_detail=False)
+            with hs.paused():
+                objs = [r.estimated_qoperation_sequence[1] for r in results]
+            call("calc_mse_qoperations", tag, da.calc_mse_qoperations, objs, [true] * len(objs))
+
+    # ---- (b, d) a second true object (not a plain default-option constructor call) on the same tomography, the two
+    # asked alternately with the SAME remaining arguments
+    prov = PROVENANCES[int(rh.integers(0, len(PROVENANCES)))]
+    true2 = second_true_object(ctx, rh, tomo, c_sys, d, m_true, flag, qt, true, prov) if even else None
+    if true2 is None:
+        pass
+    elif bool(true2.on_para_eq_constraint) != flag or gen.type_of(true2) != gen.type_of(true):
+        ctx.count(f"recorded-not-judged:second-true-object:{prov}:flag-or-type-not-kept")
+    else:
+        J.pin(true2)
+        with ph.step(f"second-true-object[{prov}]"):
+            ask_all(call, tag, qt, true2, hns, N, ws, some_js, level="lite")
+            ask_all(call, tag, qt, true, hns, N, ws, some_js, var_arr=var_arr, level="lite")
+            ask_all(call, tag, qt, true2, hns, N, ws, some_js[::-1], level="micro" if heavy else "full")
+            if not heavy:
+                ask_all(call, tag, qt, true2, lists["equal"], N, ws, some_js[:1], level="lite")
+
+    # ---- objects that are created, asked and dropped one after the other (an id()-keyed memo sees equal keys)
+    if not even:
+        with ph.step("transient-true-object"):
+            for r in range(3):
+                o = make_true(tomo, c_sys, draw_true(tomo, d, m_true, rh, ["interior", "rankdef", "sharp"][r]), on_para_eq_constraint=flag)
+                ask_all(call, tag, qt, o, hns, N, ws, some_js[:1], level="lite" if (r == 0 and not heavy) else "micro")
+                del o
+            ask_all(call, tag, qt, true, hns, N, ws, some_js[:1], level="micro")
+
+    # ---- (c, d) twin tomography: same class / flag / sizes, SAME tester objects, reversed explicit schedules,
+    # non-default constructor options; the two asked alternately about the same true object with the same lists
+    qt2, opts, err = build_twin(ctx, rh, tomo, qt, S["states"], S["povms"], m_true, flag) if even else (None, None, None)
+    if not even:
+        pass
+    elif qt2 is None:
+        ctx.violation(f"{tomo}.ctor:explicit-reversed-schedules:" + ctx.exc_key(err), {"options": opts})
+    else:
+        step = "twin-tomography" + ("+ctor-options" if opts else "")
+        with ph.step(step):
+            ask_all(call, tag, qt2, true, hns, N, ws, some_js, var_arr=var_arr, level="lite")
+            ask_all(call, tag, qt, true, hns, N, ws, some_js, var_arr=var_arr, level="lite")
+            ask_all(call, tag, qt2, true, lists["mixed"], N, ws, some_js[::-1], level="micro")
+            if tomo == "povmt":
+                # sibling with another number of outcomes (the object-space corrections of StandardPovmt depend on it)
+                m3 = [m for m in (2, 3, 4) if m != m_true][int(rh.integers(0, 2))]
+                ok3, qt3 = ctx.attempt(build_qt, tomo, S["states"], S["povms"], m3, flag)
+                if ok3:
+                    true3 = make_true(tomo, c_sys, draw_true(tomo, d, m3, rh, "interior"), on_para_eq_constraint=flag)
+                    ns3 = hist_sizes(rh, [m3] * K)
+                    ask_all(call, tag, qt3, true3, ns3, N, ws, some_js[:1], level="lite")
+                    ask_all(call, tag, qt, true, hns, N, ws, some_js[:1], level="lite")
+
+    # ---- (b) pickle round trip of tomography and true object (the library pickles both: joblib workers, to_pickle)
+    if not even:
+        okp, got = ctx.attempt(lambda: pickle.loads(pickle.dumps((qt, true))))
+        if not okp:
+            ctx.count(f"recorded-not-judged:pickle-round-trip-raises:{type(got).__name__}")
+        else:
+            qtp, truep = got
+            with ph.step("via-pickle"):
+                ask_all(call, tag, qtp, truep, hns, N, ws, some_js, var_arr=var_arr, level="lite")
+                ask_all(call, tag, qt, truep, hns, N, ws, some_js[:1], level="micro")
+                ask_all(call, tag, qtp, true, lists["mixed"], N, ws, some_js[:1], level="micro")
+
+    # ---- helper functions asked again
+    with ph.step("helpers:re-query"):
+        drive_helpers_history(ctx, rh, keep)
+
+    # ---- arguments and results as the caller holds them
+    ctx.count("history-step:returned-arrays-stable")
+    keep.judge(ctx)
+    same = tuple(hns) == hns0 and all(tuple(v) == S["lists0"][k] for k, v in lists.items()) and np.array_equal(var_arr, S["var_arr0"])
+    ctx.truth("arguments-unchanged-by-the-formulas", same, key=f"formulas:{tag}:argument-modified-in-place")
+
+
 def run_shard(ctx):
     os.environ.setdefault("TQDM_DISABLE", "1")
     import quara.data_analysis.data_analysis as da
@@ -1464,18 +1847,23 @@ def run_shard(ctx):
     install_helper_hooks(hs, J)
     install_checker_hooks(hs, J)
     uses_states, uses_povms = tomo != "qst", tomo != "povmt"
+    ph = PhaseKeys(ctx)
+    keep = Keeper()
 
     def call(label, tag, fn, *a, **kw):
         ok, val = ctx.attempt(fn, *a, **kw)
         if not ok:
             ctx.violation(f"{label}:{tag}:" + ctx.exc_key(val), {"args": [x for x in a if isinstance(x, (int, list, str))][:3]})
             return None
+        keep.add(label, tag, val)
         return val
 
     try:
         for i in ctx.cases(p["n"], start=p.get("start", 0)):
             rng = ctx.rng()
             J.clear_case()
+            ph.new_case()
+            keep.clear()
             kind = ["interior", "aligned", "rankdef", "interior", "sharp", "aligned"][i % 6]
             aligned = kind == "aligned"
             true_kind = "sharp" if aligned else kind
@@ -1509,6 +1897,7 @@ def run_shard(ctx):
                 ctx.count("case-skipped:no-well-conditioned-draw")
                 continue
             true = make_true(tomo, c_sys, ops, on_para_eq_constraint=flag)
+            J.pin(true)
             M = J.model(qt)
             tag = M.tag
             K = M.K
@@ -1521,6 +1910,7 @@ def run_shard(ctx):
             has_zero = any(c == "boundary" for c in cls)
             ctx.count("true-distribution:" + ("has-zero-probability" if has_zero else "free-zone" if "free" in cls else "all-positive"))
             lists, c = sample_sizes(rng, K, M.sizes)
+            lists0 = {k: tuple(v) for k, v in lists.items()}
             vals = {}
             for name, ns in lists.items():
                 j = int(rng.integers(0, K))
@@ -1567,6 +1957,7 @@ def run_shard(ctx):
             same_var = v_true.shape == T["v_true"].shape and bool(np.allclose(v_true, T["v_true"], atol=1e-12, rtol=0))
             ctx.truth("true.to_var=reference-variables", same_var, key=f"to_var:{gen.type_of(true)}:para_eq={'T' if flag else 'F'}:differs-from-convention")
             var_arr = T["v_true"].copy()
+            var_arr0 = var_arr.copy()
             j = int(rng.integers(0, K))
             call("calc_fisher_matrix", tag, qt.calc_fisher_matrix, j, true)
             call("calc_fisher_matrix", tag, qt.calc_fisher_matrix, int(rng.integers(0, K)), var_arr)
@@ -1591,6 +1982,7 @@ def run_shard(ctx):
             reps = int(rng.integers(3, 8))
             num_data = [int(rng.integers(2, 30)), int(rng.integers(30, 2000))]
             empi_seqs, results = [], []
+            sim_objs = None
             for _ in range(reps):
                 seq = [[(n, rng.multinomial(n, q) / float(n)) for q in T["ps"]] for n in num_data]
                 empi_seqs.append(seq)
@@ -1606,7 +1998,12 @@ def run_shard(ctx):
                 sim = types.SimpleNamespace(simulation_setting=setting, qtomography=qt, empi_dists_sequences=empi_seqs, estimation_results=results)
                 call("compare_to_analytical", tag, mse_mod.compare_to_analytical, setting, results, qt, show_detail=False)
                 call("check_mse_of_empirical_distributions", tag, mse_mod.check_mse_of_empirical_distributions, sim, show_detail=False)
+                sim_objs = (setting, sim, results)
             drive_helpers(ctx, rng, tag)
+            run_history(ctx, ph, J, hs, keep, call,
+                        {"tomo": tomo, "c_sys": c_sys, "d": d, "flag": flag, "qt": qt, "true": true, "tag": tag, "K": K,
+                         "sizes": M.sizes, "lists": lists, "lists0": lists0, "m_true": m_true, "i": i, "states": states,
+                         "povms": povms, "var_arr": var_arr, "var_arr0": var_arr0, "sim": sim_objs})
             ctx.nontrivial(tomo, shape, flag, len(st_m), len(pv_m), m_pv, m_true, kind, T["o_true"], lists["mixed"], lists["large"])
             if i < 2:
                 ctx.sample({"tomo": tag, "shape": shape, "schedules": K, "outcomes_per_schedule": M.sizes[0], "cond_A": li["kappa"],
@@ -1615,7 +2012,10 @@ def run_shard(ctx):
                             "mse_empi": vals["mixed"]["empi"], "cramer_rao": vals["mixed"]["crb"]})
     finally:
         hs.uninstall()
+        ph.restore()
     ctx.extra["hook_counts"] = hs.counts
+    ctx.extra["history_cpu_s"] = {k: round(v, 2) for k, v in ph.cpu.items()}
+    ctx.extra["shard_cpu_s"] = round(time.process_time(), 2)
     ctx.extra["worst_ratios"] = J.worst
     ctx.extra["kappa_max"] = max(J.kappas) if J.kappas else None
     ctx.extra["condF_max"] = max(J.condF) if J.condF else None
@@ -1644,5 +2044,17 @@ def finalize(merged, ctx):
         fmax = max(fmax, ex.get("condF_max") or 0.0)
     for k, v in sorted(worst.items()):
         ctx.count(f"margin:worst-err-as-permille-of-tol_pass:{k}", int(math.ceil(1000 * v)))
+    cpu, tot = {}, 0.0
+    for s_ in merged["extra"]:
+        ex = s_["extra"] or {}
+        tot += ex.get("shard_cpu_s") or 0.0
+        for k, v in (ex.get("history_cpu_s") or {}).items():
+            cpu[k] = cpu.get(k, 0.0) + v
+    ctx.count("cost:cpu-seconds:all-shards", int(round(tot)))  # information only
+    for k, v in sorted(cpu.items()):
+        ctx.count(f"cost:cpu-seconds:history-step:{k}", int(round(v)))
+    for name in HISTORY_STEPS:
+        if not merged.get("counters", {}).get("history-step:" + name):
+            ctx.mark_inconclusive(f"history step never ran: {name}")
     ctx.count("largest-cond(A)-judged", int(math.ceil(kmax)))
     ctx.count("largest-cond(F)-judged:log10", int(math.ceil(math.log10(fmax))) if fmax > 0 else 0)
